@@ -51,7 +51,8 @@ def _fresh(history):
 
 
 def refs_path(work=None):
-    return os.path.join(work or os.path.join(boot.VERIF, ".work", PROPERTY), "refs.json")
+    from vlib.core import out_dir
+    return os.path.join(work or os.path.join(out_dir(), ".work", PROPERTY), "refs.json")
 
 
 def prepare(work, tier):
